@@ -35,10 +35,10 @@ Ev == Trace[l]
 Is(e) == l <= Len(Trace) /\ Ev.e = e
 
 Step ==
-  \/ Is("callB")  /\ C!CallB(Ev.p, Ev.k, Ev.v)
+  \/ Is("callB")  /\ C!CallB(Ev.p, Ev.k, Ev.v, Ev.i)
   \/ Is("callE")  /\ C!CallE(Ev.p)
   \/ Is("drop")   /\ C!Drop(Ev.p)
-  \/ Is("cbB")    /\ C!CbB(Ev.o, Ev.p, Ev.k, Ev.v)
+  \/ Is("cbB")    /\ C!CbB(Ev.o, Ev.p, Ev.k, Ev.v, Ev.i)
   \/ Is("cbE")    /\ C!CbE(Ev.o, Ev.k)
   \/ Is("unsubB") /\ C!UnsubB(Ev.o)
   \/ Is("unsubE") /\ C!UnsubE(Ev.o)
